@@ -56,6 +56,16 @@ CUSTOM_TZ_CAL2 = (b"BEGIN:VCALENDAR\r\nVERSION:2.0\r\nPRODID:x\r\nBEGIN:VTIMEZON
                   b"DTEND;TZID=Custom/Verif-Ex:20231120T100000\r\nEND:VEVENT\r\nBEGIN:VTODO\r\nUID:2\r\nDUE;TZID=Custom/Verif-Ex:20220601T100000\r\n"
                   b"RDATE;TZID=Custom/Verif-Ex:20231030T100000,20231113T100000\r\nEND:VTODO\r\nEND:VCALENDAR\r\n")
 
+# a "full history" definition: the older rules end with UNTIL, the newer ones take over; values in the weeks in which the expired
+# and the current rule disagree (a copy that loses UNTIL keeps the expired rule firing)
+CUSTOM_TZ_CAL3 = (b"BEGIN:VCALENDAR\r\nVERSION:2.0\r\nPRODID:x\r\nBEGIN:VTIMEZONE\r\nTZID:Custom/Verif-Hist\r\n"
+                  b"BEGIN:DAYLIGHT\r\nDTSTART:19810329T020000\r\nRRULE:FREQ=YEARLY;BYMONTH=3;BYDAY=-1SU\r\nTZOFFSETFROM:+0100\r\nTZOFFSETTO:+0200\r\nTZNAME:CEST\r\nEND:DAYLIGHT\r\n"
+                  b"BEGIN:STANDARD\r\nDTSTART:19810927T030000\r\nRRULE:FREQ=YEARLY;BYMONTH=9;BYDAY=-1SU;UNTIL=19950924T010000Z\r\nTZOFFSETFROM:+0200\r\nTZOFFSETTO:+0100\r\nTZNAME:CET\r\nEND:STANDARD\r\n"
+                  b"BEGIN:STANDARD\r\nDTSTART:19961027T030000\r\nRRULE:FREQ=YEARLY;BYMONTH=10;BYDAY=-1SU\r\nTZOFFSETFROM:+0200\r\nTZOFFSETTO:+0100\r\nTZNAME:CET\r\nEND:STANDARD\r\n"
+                  b"END:VTIMEZONE\r\nBEGIN:VEVENT\r\nUID:1\r\nDTSTART;TZID=Custom/Verif-Hist:20101005T120000\r\nDTEND;TZID=Custom/Verif-Hist:20101105T120000\r\n"
+                  b"RDATE;TZID=Custom/Verif-Hist:20001010T090000,19941010T090000,20240930T090000\r\nEND:VEVENT\r\n"
+                  b"BEGIN:VTODO\r\nUID:2\r\nDUE;TZID=Custom/Verif-Hist:20201001T100000\r\nEND:VTODO\r\nEND:VCALENDAR\r\n")
+
 
 def alpha(comp):
     """flat projection: par / nm / pr (canonical string of the property map)"""
@@ -302,7 +312,7 @@ def run(ctx: Ctx):
             tzs = [None, "UTC", "Europe/Berlin", "America/New_York"]
             if i % 5 == 4:
                 # alternately: a custom zone whose yearly rule has an EXDATE and an RDATE, with events inside the span they affect
-                cal = Calendar.from_ical(CUSTOM_TZ_CAL2 if (i // 10) % 2 else CUSTOM_TZ_CAL)    # each under both providers
+                cal = Calendar.from_ical((CUSTOM_TZ_CAL, CUSTOM_TZ_CAL2, CUSTOM_TZ_CAL3)[(i // 10) % 3])    # each under both providers
             else:
                 cal = random_tree(rnd, rnd.randint(2, 6), tzs)
             a = alpha(cal)
